@@ -2,6 +2,7 @@ package sym
 
 import (
 	"fmt"
+	"os"
 	"go/types"
 	"strings"
 
@@ -91,6 +92,24 @@ func init() {
 		"verifConcretize": func(in *Interp, fn *ssa.Function, a []Value) Value {
 			return in.concretize(in.term(a[0]), "verifConcretize")
 		},
+		"verifSameBytes": func(in *Interp, fn *ssa.Function, a []Value) Value {
+			x, y := in.sliceBytes(a[0]), in.sliceBytes(a[1])
+			if len(x) != len(y) {
+				return in.C.False
+			}
+			for i := range x {
+				if x[i] != y[i] {
+					return in.C.False
+				}
+			}
+			return in.C.True
+		},
+		"verifDumpErr": func(in *Interp, fn *ssa.Function, a []Value) Value {
+			if os.Getenv("VERIF_DUMP") != "" {
+				fmt.Fprintf(os.Stderr, "DUMP %s: %s\n", in.concStr(a[0]), in.describe(a[1]))
+			}
+			return nil
+		},
 		"verifSymbolic": func(in *Interp, fn *ssa.Function, a []Value) Value { return in.C.True },
 		"verifNote":     func(in *Interp, fn *ssa.Function, a []Value) Value { return nil },
 		"verifTimeAgo": func(in *Interp, fn *ssa.Function, a []Value) Value {
@@ -145,6 +164,22 @@ func init() {
 				conj[i] = in.C.Eq(x[i], y[i])
 			}
 			return in.C.And(conj...)
+		},
+		"github.com/emmansun/gmsm/internal/randutil.MaybeReadByte": func(in *Interp, fn *ssa.Function, a []Value) Value {
+			// reads one byte from the source or none, chosen nondeterministically (both are explored)
+			if in.branch(in.newVar("maybereadbyte", 0), "MaybeReadByte") {
+				r := a[0].(Iface)
+				if r.T == nil {
+					in.goPanicf("nil io.Reader")
+				}
+				buf := in.newByteSlice([]*smt.Term{in.C.Const(8, 0)}, 1, "maybereadbyte")
+				m := in.P.Prog.LookupMethod(r.T, nil, "Read")
+				if m == nil {
+					fail("Read method not found on %v", r.T)
+				}
+				in.callFn(m, []Value{r.V, buf}, nil)
+			}
+			return nil
 		},
 		"os.Getenv":             func(in *Interp, fn *ssa.Function, a []Value) Value { return Str{} },
 		"math/bits.Len64":       func(in *Interp, fn *ssa.Function, a []Value) Value { return in.bitsLen(in.term(a[0])) },
@@ -409,17 +444,19 @@ func xMul64(in *Interp, fn *ssa.Function, a []Value) Value {
 func xAdd64(in *Interp, fn *ssa.Function, a []Value) Value {
 	c := in.C
 	x, y, ci := in.term(a[0]), in.term(a[1]), in.term(a[2])
-	s := c.Add(c.Add(c.ZExt(x, 65), c.ZExt(y, 65)), c.ZExt(c.Extract(ci, 0, 0), 65))
-	// Go: carryOut uses only bit 0 of carry? (x+y+carry; carry must be 0 or 1) — real: sum = x + y + carry
-	s = c.Add(c.Add(c.ZExt(x, 66), c.ZExt(y, 66)), c.ZExt(ci, 66))
-	return Tuple{c.Extract(s, 63, 0), c.ZExt(c.Extract(s, 64, 64), 64)}
+	sum := c.Add(c.Add(x, y), ci)
+	// carryOut = ((x & y) | ((x | y) &^ sum)) >> 63   (math/bits)
+	co := c.LShr(c.BvOr(c.BvAnd(x, y), c.BvAnd(c.BvOr(x, y), c.BvNot(sum))), c.Const(64, 63))
+	return Tuple{sum, co}
 }
 
 func xSub64(in *Interp, fn *ssa.Function, a []Value) Value {
 	c := in.C
 	x, y, bi := in.term(a[0]), in.term(a[1]), in.term(a[2])
-	d := c.Sub(c.Sub(c.ZExt(x, 66), c.ZExt(y, 66)), c.ZExt(bi, 66))
-	return Tuple{c.Extract(d, 63, 0), c.ZExt(c.Extract(d, 64, 64), 64)}
+	diff := c.Sub(c.Sub(x, y), bi)
+	// borrowOut = ((^x & y) | (^(x ^ y) & diff)) >> 63   (math/bits)
+	bo := c.LShr(c.BvOr(c.BvAnd(c.BvNot(x), y), c.BvAnd(c.BvNot(c.BvXor(x, y)), diff)), c.Const(64, 63))
+	return Tuple{diff, bo}
 }
 
 func xReverseBytes(in *Interp, fn *ssa.Function, a []Value) Value {
